@@ -8,6 +8,10 @@
      1 impl mask not inside model mask   2 action taken is outside the model mask   3 done differs
      4 reward differs   7 model step = None   8 stage_idx differs   9 stage_machine_idx differs
      10 schedule differs   11 job_location differs   12 instance not well-formed   13 episode not finished
+     bookkeeping of the step output (every key of the TensorDict the row model has a counterpart for), compared after
+     reset and after EVERY step when recorded (o_keys = true / s_keys non-empty):
+       FFSP    14 time_idx   15 sub_time_idx   16 machine_idx   17 machine_wait_step   18 job_wait_step   19 job_location
+       SMTWTP  14 current_time   15 current_job   16 s_keys has another length than s_steps
    Spec code: 0 ok, 5 reward is not minus the makespan / the weighted tardiness, 6 schedule invalid /
    episode not a permutation. *)
 From Coq Require Import ZArith List Bool Lia ZifyBool Arith Permutation.
@@ -46,7 +50,9 @@ Fixpoint natlist_eqb (a b : list nat) : bool :=
 (* ---------------------------------------------------------------- FFSP *)
 (* what the policy sees after reset / after a step; o_cmp = false on the step that finishes the whole batch,
    where the code leaves action_mask / stage_idx / stage_machine_idx stale (see Env/FFSP.v) *)
-Record obs := { o_mask : list bool; o_done : bool; o_stage : nat; o_sm : nat; o_cmp : bool }.
+Record obs := { o_mask : list bool; o_done : bool; o_stage : nat; o_sm : nat; o_cmp : bool;
+                (* bookkeeping keys; never stale (the step that finishes the batch skips only _update_step_state) *)
+                o_keys : bool; o_time : Z; o_sub : nat; o_mach : nat; o_mws : list Z; o_jws : list Z; o_jloc : list nat }.
 
 Record ffsp_case := {
   f_inst : FFSP.inst;
@@ -57,14 +63,23 @@ Record ffsp_case := {
   f_reward : Z                  (* td["reward"] at the end *)
 }.
 
+Definition cmp_keys (k : Z) (o : obs) (s : FFSP.st) : Z :=
+  if negb (o_keys o) then 0
+  else if negb (o_time o =? FFSP.time s) then 1000 * k + 14
+  else if negb (Nat.eqb (o_sub o) (FFSP.sub s)) then 1000 * k + 15
+  else if negb (Nat.eqb (o_mach o) (FFSP.mach s)) then 1000 * k + 16
+  else if negb (zlist_eqb (o_mws o) (FFSP.mws s)) then 1000 * k + 17
+  else if negb (zlist_eqb (o_jws o) (FFSP.jws s)) then 1000 * k + 18
+  else if negb (natlist_eqb (o_jloc o) (FFSP.jloc s)) then 1000 * k + 19
+  else 0.
 Definition cmp_obs (k : Z) (o : obs) (s : FFSP.st) : Z :=
   if negb (Bool.eqb (o_done o) (FFSP.done s)) then 1000 * k + 3
   else if o_cmp o then
     if negb (subsetb (o_mask o) (FFSP.mask s)) then 1000 * k + 1
     else if negb (Nat.eqb (o_stage o) (FFSP.stage_idx s)) then 1000 * k + 8
     else if negb (Nat.eqb (o_sm o) (FFSP.sm_idx s)) then 1000 * k + 9
-    else 0
-  else 0.
+    else cmp_keys k o s
+  else cmp_keys k o s.
 
 Fixpoint ffsp_walk (i : FFSP.inst) (k : Z) (s : FFSP.st) (steps : list (nat * obs)) : Z * FFSP.st :=
   match steps with
@@ -123,10 +138,17 @@ Record smtwtp_case := {
   s_inst : SMTWTP.inst;
   s_mask0 : list bool;
   s_steps : list (nat * (list bool * bool));   (* action, impl mask after, impl done after *)
-  s_reward : Z                                  (* env.get_reward(td, actions), scaled *)
+  s_reward : Z;                                 (* env.get_reward(td, actions), scaled *)
+  s_keys : list (Z * nat)                       (* [] = not recorded; else per step td["current_time"] (scaled), td["current_job"] *)
 }.
 
-Fixpoint smtwtp_walk (i : SMTWTP.inst) (k : Z) (s : SMTWTP.st) (steps : list (nat * (list bool * bool))) : Z :=
+Definition smtwtp_keys_hd (k : Z) (s : SMTWTP.st) (keys : list (Z * nat)) : Z * list (Z * nat) :=
+  match keys with
+  | [] => (0, [])
+  | (t, j) :: r => (if negb (t =? SMTWTP.cur_time s) then 1000 * k + 14
+                    else if negb (Nat.eqb j (SMTWTP.cur_job s)) then 1000 * k + 15 else 0, r)
+  end.
+Fixpoint smtwtp_walk (i : SMTWTP.inst) (k : Z) (s : SMTWTP.st) (steps : list (nat * (list bool * bool))) (keys : list (Z * nat)) : Z :=
   match steps with
   | [] => if SMTWTP.done s then 0 else 13
   | (a, (m, d)) :: r =>
@@ -136,7 +158,9 @@ Fixpoint smtwtp_walk (i : SMTWTP.inst) (k : Z) (s : SMTWTP.st) (steps : list (na
            | Some s' =>
                if negb (Bool.eqb d (SMTWTP.done s')) then 1000 * k + 3
                else if negb (subsetb m (SMTWTP.mask s')) then 1000 * k + 1
-               else smtwtp_walk i (k + 1) s' r
+               else match smtwtp_keys_hd k s' keys with
+                    | (ck, keys') => if negb (ck =? 0) then ck else smtwtp_walk i (k + 1) s' r keys'
+                    end
            end
   end.
 
@@ -144,7 +168,8 @@ Definition smtwtp_corr (c : smtwtp_case) : Z :=
   let i := s_inst c in
   if negb (SMTWTP.wfb i) then 12
   else if negb (subsetb (s_mask0 c) (SMTWTP.mask (SMTWTP.reset i))) then 1
-  else let code := smtwtp_walk i 1 (SMTWTP.reset i) (s_steps c) in
+  else if negb ((length (s_keys c) =? 0)%nat || (length (s_keys c) =? length (s_steps c))%nat) then 16
+  else let code := smtwtp_walk i 1 (SMTWTP.reset i) (s_steps c) (s_keys c) in
        if negb (code =? 0) then code
        else if negb (SMTWTP.reward i (map fst (s_steps c)) =? s_reward c) then 4 else 0.
 
@@ -172,13 +197,24 @@ Qed.
 
 (* ---------------------------------------------------------------- self-test of the checkers *)
 Definition ex_obs (m : list bool) (d : bool) (st sm : nat) : obs :=
-  {| o_mask := m; o_done := d; o_stage := st; o_sm := sm; o_cmp := true |}.
-Example check_ffsp_selftest :
-  let c := {| f_inst := {| FFSP.nJ := 1; FFSP.nS := 1; FFSP.nM := 1; FFSP.rt := [[3]]; FFSP.mtab := [0%nat]; FFSP.flat := true |};
-              f_obs0 := ex_obs [true; false] false 0 0;
-              f_steps := [(0%nat, {| o_mask := [true; false]; o_done := true; o_stage := 0; o_sm := 0; o_cmp := false |})];
-              f_sched := [[0; -999999]]; f_jloc := [1%nat; 0%nat]; f_reward := -3 |} in
-  check_ffsp c = 0.
-Proof. vm_compute. reflexivity. Qed.
+  {| o_mask := m; o_done := d; o_stage := st; o_sm := sm; o_cmp := true;
+     o_keys := false; o_time := 0; o_sub := 0; o_mach := 0; o_mws := []; o_jws := []; o_jloc := [] |}.
+Definition ex_ffsp_case (mw_after : Z) : ffsp_case :=
+  {| f_inst := {| FFSP.nJ := 1; FFSP.nS := 1; FFSP.nM := 1; FFSP.rt := [[3]]; FFSP.mtab := [0%nat]; FFSP.flat := true |};
+     f_obs0 := {| o_mask := [true; false]; o_done := false; o_stage := 0; o_sm := 0; o_cmp := true;
+                  o_keys := true; o_time := 0; o_sub := 0; o_mach := 0; o_mws := [0]; o_jws := [0; 0]; o_jloc := [0; 0]%nat |};
+     f_steps := [(0%nat, {| o_mask := [true; false]; o_done := true; o_stage := 0; o_sm := 0; o_cmp := false;
+                            o_keys := true; o_time := 0; o_sub := 0; o_mach := 0; o_mws := [mw_after]; o_jws := [3; 0];
+                            o_jloc := [1; 0]%nat |})];
+     f_sched := [[0; -999999]]; f_jloc := [1%nat; 0%nat]; f_reward := -3 |}.
+Example check_ffsp_selftest : check_ffsp (ex_ffsp_case 3) = 0 /\ check_ffsp (ex_ffsp_case 0) = 10170.
+Proof. vm_compute. split; reflexivity. Qed.
+Example check_smtwtp_selftest :
+  let c t := {| s_inst := SMTWTP.ex_i; s_mask0 := [false; true; true; true];
+                s_steps := [(2%nat, ([false; true; false; true], false)); (3%nat, ([false; true; false; false], false));
+                            (1%nat, ([false; false; false; false], true))];
+                s_reward := -9; s_keys := [(1, 2%nat); (t, 3%nat); (5, 1%nat)] |} in
+  check_smtwtp (c 3) = 0 /\ check_smtwtp (c (-3)) = 20140.
+Proof. vm_compute. split; reflexivity. Qed.
 
 End HC07F.
